@@ -51,6 +51,11 @@ var (
 	importNameRe       = regexp.MustCompile("\\bimport[ \\t]+([A-Za-z_][A-Za-z0-9_]*)[ \\t]*[\"`]|\\bimport[ \\t]*[\"`](?:[^\"`/]*/)*([A-Za-z_][A-Za-z0-9_]*)[\"`]")
 	nilFuncConvRe      = regexp.MustCompile(`(?:\([ \t]*func\b[^{};]*?\)|\bmacro\b[^{};]*?)[ \t]*\([ \t]*nil[ \t]*\)`)
 	variadicCalleeRe   = regexp.MustCompile(`\b(println|print|append|FV|FVF)[ \t]*\(`)
+	funcDeclRe         = regexp.MustCompile(`\b(?:func|macro)[ \t]+([A-Za-z_][A-Za-z0-9_]*)[ \t]*[(%]`)
+	funcDeclUseRe      = regexp.MustCompile(`\b(?:func|macro)[ \t]+[A-Za-z_][A-Za-z0-9_]*`)
+	anyIdentRe         = regexp.MustCompile(`[A-Za-z_][A-Za-z0-9_]*`)
+	defaultCalleeRe    = regexp.MustCompile(`(?:\.[ \t]*[A-Za-z_][A-Za-z0-9_]*|[\]}]|[A-Za-z0-9_][ \t]*\([^()]*\))[ \t]*\([^()]*\)[ \t]*default\b`)
+	defaultTailRe      = regexp.MustCompile(`[ \t]*\bdefault\b[^}%]*`)
 	elseRe             = regexp.MustCompile(`\{%[ \t\n]*else[ \t\n]*%\}|\belse\b`)
 )
 
@@ -207,6 +212,47 @@ var findingClasses = []findingClass{
 			return nil, false
 		}
 		return nilFuncConvRe.ReplaceAll(src, []byte("nil")), true
+	}},
+	{id: "disassemble-function-index-panics", neutral: func(src []byte) ([]byte, bool) {
+		// prediction: more than 128 distinct functions or macros are declared (and called: a function whose table of
+		// called functions has an entry above 127 — the disassembler reads the 8-bit operand as signed); neutralised by
+		// making every call call the first of them
+		var names []string
+		seen := map[string]bool{}
+		for _, m := range funcDeclRe.FindAllSubmatch(src, -1) {
+			if n := string(m[1]); !seen[n] && n != "main" && n != "init" {
+				seen[n] = true
+				names = append(names, n)
+			}
+		}
+		if len(names) <= 128 {
+			return nil, false
+		}
+		out := anyIdentRe.ReplaceAllFunc(src, func(id []byte) []byte {
+			if seen[string(id)] {
+				return []byte(names[0])
+			}
+			return id
+		})
+		// the declarations keep their names: restore them in order
+		k := 0
+		out = funcDeclUseRe.ReplaceAllFunc(out, func(m []byte) []byte {
+			if k < len(names) && strings.HasSuffix(string(m), names[0]) {
+				r := string(m[:len(m)-len(names[0])]) + names[k]
+				k++
+				return []byte(r)
+			}
+			return m
+		})
+		return out, true
+	}},
+	{id: "default-non-identifier-call-panics", neutral: func(src []byte) ([]byte, bool) {
+		// `f(…) default e` where the callee f is not an identifier: a selector, an index, a literal, a call (not a
+		// parenthesised identifier, which the parser unwraps); neutralised by dropping `default e`
+		if !defaultCalleeRe.Match(src) {
+			return nil, false
+		}
+		return defaultTailRe.ReplaceAll(src, nil), true
 	}},
 	{id: "duplicate-else-panics", neutral: func(src []byte) ([]byte, bool) {
 		locs := elseRe.FindAllIndex(src, -1)
